@@ -22,6 +22,7 @@ type loopInfo struct {
 	pos     token.Pos
 	// snapshot at header (after havoc) for decreases
 	decAt []Term
+	havocFams []string
 }
 
 type edge struct {
@@ -393,8 +394,24 @@ func (g *Gen) loopHead(li *loopInfo) {
 	for _, inv := range spec.Inv {
 		g.obligeClause(fmt.Sprintf("inv[%d].entry", li.ordinal), g.evalBool(inv.Expr, cx, inv), inv)
 	}
-	// 2. havoc everything the loop may modify
+	// 2. havoc everything the loop may modify; the function's frame is an implicit loop invariant:
+	//    it is checked here for the pre-loop state, assumed for the havoced state and re-checked at back edges
+	pre := g.st.clone()
 	g.havocLoop(li)
+	if g.con != nil {
+		for _, fam := range li.havocFams {
+			if t, ok := pre.heap[fam]; ok {
+				if f, ok := g.frameFormula(fam, t); ok {
+					g.oblige(fmt.Sprintf("frame[%d].entry", li.ordinal), f, "frame of "+fam+" holds on loop entry")
+				}
+			}
+		}
+		for _, fam := range li.havocFams {
+			if f, ok := g.frameFormula(fam, g.st.heap[fam]); ok {
+				g.assumeReach(f)
+			}
+		}
+	}
 	// 3. assume invariants
 	cx = g.ctxHere()
 	for _, inv := range spec.Inv {
@@ -423,6 +440,15 @@ func (g *Gen) backEdge(li *loopInfo, cond Term) {
 	g.curLoop = li
 	defer func() { g.curPos = savedPos; g.curLoop = nil }()
 	g.reach = g.define("backedge", cond)
+	if g.con != nil {
+		for _, fam := range li.havocFams {
+			if t, ok := g.st.heap[fam]; ok {
+				if f, ok := g.frameFormula(fam, t); ok {
+					g.oblige(fmt.Sprintf("frame[%d].preserve", li.ordinal), f, "frame of "+fam+" preserved by the loop body")
+				}
+			}
+		}
+	}
 	cx := g.ctxHere()
 	for _, lm := range spec.Lemma {
 		g.obligeClause(fmt.Sprintf("lemma[%d]", li.ordinal), g.evalBool(lm.Expr, cx, lm), lm)
@@ -1092,10 +1118,23 @@ func (g *Gen) lookup(x *ssa.Lookup) {
 		tup := x.Type().(*types.Tuple)
 		v := g.freshVal("maplookup", tup.At(0).Type(), g.st)
 		ok := g.fresh("mapok", SBool)
+		if g.con != nil && g.con.Opts["map_values_nonnil"] != "" {
+			if _, isPtr := tup.At(0).Type().Underlying().(*types.Pointer); isPtr {
+				g.assume(implies(ok, not(eq(v.C[0], tInt(0)))))
+				g.noteAssumption("values stored in maps are non-nil pointers in " + g.fnName())
+			}
+		}
 		g.env[x] = &SV{V: Val{T: x.Type(), C: append(v.C, ok)}}
 		return
 	}
-	g.env[x] = &SV{V: g.freshVal("maplookup", x.Type(), g.st)}
+	v := g.freshVal("maplookup", x.Type(), g.st)
+	if g.con != nil && g.con.Opts["map_values_nonnil"] != "" {
+		if _, isPtr := x.Type().Underlying().(*types.Pointer); isPtr {
+			g.assume(not(eq(v.C[0], tInt(0))))
+			g.noteAssumption("values stored in maps are non-nil pointers in " + g.fnName())
+		}
+	}
+	g.env[x] = &SV{V: v}
 }
 
 func (g *Gen) rangeNext(ins ssa.Instruction) {
